@@ -164,6 +164,20 @@ CHECKS['C10'] = (
     'capability boundary and rounding ties are unjudged; OpenROADM models (NF depends on input power) are not in the archetypes.',
     'DESIGN.md 3/C10')
 
+CHECKS['C17'] = (
+    'deviation-bounded enumeration of topology x Span x simulation-parameter configurations, each explored as a history of '
+    'design / design-again / 1-3 export-reload-redesign rounds on the real code with a differential oracle',
+    'For every configuration within 2 (quick) / 3 (thorough) deviations over site graph, link chains (incl. 1000 km fibres split '
+    'into non-integer spans, fused spans, operator VOA/offset/gain, lumped losses, per-frequency loss, Raman spans), Span settings '
+    '(padding, EOL, max_length, connectors, delta-power range, VOA optimisation), power/gain mode, library and the simulation '
+    'parameters in force (7 settings incl. every NLI/Raman field non-default): two designs of the same input are identical; each '
+    'round network_to_json -> json -> yang_to_legacy -> network_from_json -> designed_network reproduces the previous export '
+    '(numbers within 2e-6, everything else exactly); propagation on the reloaded design gives the same receiver figures; the '
+    'process-wide SimParams are attribute-wise identical before and after every completed design.',
+    'Designs that abort are judged by C08 only. One open known finding: EOL margin is added again at every redesign (see '
+    'known_findings.json); such cases are re-judged on an EOL-compensated input so that other differences are not masked.',
+    'DESIGN.md 3/C17')
+
 ALL = [f'C{i:02d}' for i in range(1, 21)]
 NOT_BUILT_REASON = 'check not built yet in this round (planned, see DESIGN.md section 3); not claimed until it runs'
 
